@@ -279,6 +279,32 @@ func c05Gen(tier string, rng *rand.Rand, emit func(interface{})) {
 		emit(c05Case{Op: 1, Mu: F64(ms[0]), Sigma: F64(ms[1]), Xs: c05NormalGrid(rng, ms[0], ms[1], true)})
 		emit(c05Case{Op: 2, Mu: F64(ms[0]), Sigma: F64(ms[1]), Xs: c05Probabilities(rng)})
 	}
+	// dense probability sweep for InvCDF of the standard normal: every 1/4096, both tails log-spaced at
+	// 8 (thorough 64) per decade down to 1e-300 and up to 1 - 1e-16
+	{
+		per := 8.0
+		if thorough {
+			per = 64
+		}
+		var ps []float64
+		for k := 1; k < 4096; k++ {
+			ps = append(ps, float64(k)/4096)
+		}
+		for j := 1.0; j <= 300*per; j++ {
+			p := math.Pow(10, -j/per)
+			ps = append(ps, p)
+			if p > 1e-16 {
+				ps = append(ps, 1-p)
+			}
+		}
+		var in []float64
+		for _, p := range ps {
+			if p > 0 && p < 1 {
+				in = append(in, p)
+			}
+		}
+		emit(c05Case{Op: 2, Mu: 0, Sigma: 1, Xs: c05Sorted(in)})
+	}
 	for it := 0; it < 60*mul; it++ {
 		mu, sigma := c05MuSigma(rng, it%3)
 		emit(c05Case{Op: 1, Mu: F64(mu), Sigma: F64(sigma), Xs: c05NormalGrid(rng, mu, sigma, it%5 == 0)})
